@@ -323,9 +323,26 @@ Proof.
   destruct (ph st n) eqn:Hp; try discriminate. eauto.
 Qed.
 
-(* the events that complete a push into the destination *)
+Lemma settled_successors st n :
+  Inv st -> settled_ph (ph st n) = true -> forall x, In x (succ' g n) -> has g (dst st) x = true.
+Proof.
+  intros I Hs x Hx. apply (i_present _ _ _ st I).
+  rewrite (i_settled _ _ _ st I n Hs x Hx). reflexivity.
+Qed.
+
+Lemma mte_settled st n r st' : step g c st (MtE n r) = Some st' -> r <> MSkipped ->
+  settled_ph (ph st n) = true.
+Proof.
+  intros Hs Hr. unfold step in Hs. destruct (returned st); [discriminate|].
+  destruct (ph st n) eqn:Hp; destruct r; try discriminate; try reflexivity; congruence.
+Qed.
+
+(* the events that complete the storing of node n in the destination: a push / push with reference
+   (stored now or already there), a push or Mount that reports an error after the content was stored,
+   a Mount that mounted the blob or uploaded it *)
 Definition push_done (fe : fevent) (n : node) : Prop :=
-  (exists ref r, fe = Ev (PuE n ref r)) \/ (exists ref, fe = PuX n ref true).
+  (exists ref r, fe = Ev (PuE n ref r)) \/ (exists ref, fe = PuX n ref true) \/
+  fe = Ev (MtE n MMounted) \/ fe = Ev (MtE n MCopied) \/ fe = MtX n true.
 
 Lemma fpush_after_successors tr1 fe tr2 fs n :
   ext_ok -> closed_nodes g d0 -> mt_consistent g ->
@@ -338,12 +355,18 @@ Proof.
   pose proof (frun_inv tr1 _ _ (finit_inv Hx) H1) as I.
   simpl in H2. destruct (fstep g c ext fs1 fe) as [fs2|] eqn:E; [|discriminate].
   apply fstep_inv in E as [_ E].
-  destruct Hpd as [[ref [r ->]]|[ref ->]]; inversion E; subst.
+  destruct Hpd as [[ref [r Hfe]] | [[ref Hfe] | [Hfe | [Hfe | Hfe]]]]; subst fe; inversion E; subst.
   - (* PuE through the base step *)
     match goal with Hs : step g c (fb fs1) _ = Some _ |- _ =>
       destruct (pue_pushing _ _ _ _ _ Hs) as [sk [rd Hp]] end.
     eapply pushing_successors; eauto.
   - eapply pushing_successors; eauto.
+  - match goal with Hs : step g c (fb fs1) _ = Some _ |- _ =>
+      apply settled_successors; [exact I | eapply mte_settled; [exact Hs | discriminate]] end.
+  - match goal with Hs : step g c (fb fs1) _ = Some _ |- _ =>
+      apply settled_successors; [exact I | eapply mte_settled; [exact Hs | discriminate]] end.
+  - apply settled_successors; [exact I|].
+    match goal with Hp : _ \/ _ |- _ => destruct Hp as [Hp|Hp]; rewrite Hp; reflexivity end.
 Qed.
 
 (* ------------------------------------------------------------------ faults surface *)
@@ -507,6 +530,73 @@ Proof.
   pose proof (frun_inv tr1 _ _ (finit_inv Hx) H1) as I.
   simpl in H2. destruct (fstep g c ext fs1 fe) as [fs2|] eqn:E; [|discriminate].
   injection H2 as <-. eapply fault_taints; eauto.
+Qed.
+
+(* ------------------------------------------------------------------ no fault: no error return *)
+
+(* only a failing callback creates a dead task among the events of CopySpec *)
+Lemma step_no_new_dead st e st' x : step g c st e = Some st' -> (forall k n, e <> CbFail k n) ->
+  ph st' x = Dead -> ph st x = Dead.
+Proof.
+  intros H Hn Hx. step_inv H; simp_st; auto;
+    try (exfalso; eapply Hn; reflexivity);
+    (upd_cases x n; auto);
+    unfold after_push, after_tag in Hx;
+    repeat match type of Hx with context [if ?b then _ else _] => destruct b end;
+    discriminate.
+Qed.
+
+Lemma any_dead_false_step st e st' : step g c st e = Some st' -> (forall k n, e <> CbFail k n) ->
+  any_dead g st = false -> any_dead g st' = false.
+Proof.
+  intros H Hn Hd. apply Bool.not_true_is_false. intro Hd'.
+  unfold any_dead in Hd'. apply existsb_exists in Hd' as [x [Hin Hx]].
+  assert (Hxd : ph st' x = Dead) by (destruct (ph st' x); simpl in Hx; congruence).
+  pose proof (step_no_new_dead _ _ _ _ H Hn Hxd) as Hold.
+  rewrite (any_dead_intro st x) in Hd; [discriminate | | assumption].
+  apply in_seq in Hin. lia.
+Qed.
+
+Lemma untainted_step fs fe fs' : fstep g c ext fs fe = Some fs' -> is_fault fe = false ->
+  tainted g fs = false -> tainted g fs' = false.
+Proof.
+  intros H Hf Ht. apply fstep_inv in H as [_ H].
+  assert (Hel : f_cancelled fs = false /\ f_aborted fs = false /\ any_dead g (fb fs) = false).
+  { unfold tainted in Ht. apply orb_false_iff in Ht as [Ht H3]. apply orb_false_iff in Ht as [H1 H2]. auto. }
+  destruct Hel as [H1 [H2 H3]].
+  destruct H; simpl in Hf; try discriminate; unfold tainted;
+    cbn [fb f_cancelled f_aborted set_ret with_base]; rewrite ?H1, ?H2; cbn [orb]; auto.
+  eapply any_dead_false_step; eauto. intros k n ->. discriminate.
+Qed.
+
+Lemma nofault_untainted tr : forall fs fs', frun g c ext fs tr = Some fs' ->
+  existsb is_fault tr = false -> tainted g fs = false ->
+  returned (fb fs) <> Some false ->
+  tainted g fs' = false /\ returned (fb fs') <> Some false.
+Proof.
+  induction tr as [|fe tr IH]; simpl; intros fs fs' H Hf Ht Hr.
+  - injection H as <-. auto.
+  - destruct (fstep g c ext fs fe) as [fs1|] eqn:E; [|discriminate].
+    apply orb_false_iff in Hf as [Hf1 Hf2].
+    pose proof (untainted_step _ _ _ E Hf1 Ht) as Ht1.
+    eapply IH; eauto.
+    destruct (fstep_returned _ _ _ E) as [[-> [_ [_ ->]]]|[[-> Hrf]|Hrn]].
+    + cbn. discriminate.
+    + (* Ret false needs taint *)
+      apply fstep_inv in E as [_ E]. inversion E; subst; congruence.
+    + congruence.
+Qed.
+
+(* a run without fault events is never tainted and never returns an error *)
+Lemma fnofault_no_error tr fs :
+  faccepts g c ext d0 tr = Some fs -> existsb is_fault tr = false ->
+  tainted g fs = false /\ returned (fb fs) <> Some false.
+Proof.
+  intros Ha Hf. unfold faccepts in Ha. eapply nofault_untainted; eauto.
+  - unfold tainted, finit, any_dead. cbn [f_cancelled f_aborted fb orb].
+    apply Bool.not_true_is_false. intro Hd. apply existsb_exists in Hd as [x [_ Hx]].
+    destruct ext; cbn [set_ph init ph] in Hx; [unfold upd in Hx; destruct (Nat.eqb x (c_root c))|]; discriminate.
+  - unfold finit. cbn [fb]. destruct ext; discriminate.
 Qed.
 
 (* ------------------------------------------------------------------ success: the graph is complete *)
